@@ -1,4 +1,4 @@
-\* C13 spec-level negative controls: small space; c13.py switches ONE of the three constants to TRUE
+\* C13 spec-level negative controls: small space; c13.py switches ONE of the four constants to TRUE
 \* and requires TLC to report the invariant named in PkgRelation.tla
 CONSTANTS
   MaxConj = 2
@@ -13,8 +13,11 @@ CONSTANTS
   RestrictionsFirst = FALSE
   IgnoreNegation = FALSE
   PipeFirst = FALSE
+  FormatInKeyOrder = FALSE
+  KeyOrders <- AllKeyOrders
 SPECIFICATION Spec
 INVARIANT TypeOK
+INVARIANT FormatIgnoresKeyOrder
 INVARIANT TokensWellFormed
 INVARIANT Inverse
 INVARIANT NoWarning
